@@ -597,16 +597,28 @@ namespace bloch::update {
                                                  const std::string& assetName) {
             std::istringstream in(content);
             std::string line;
+            // "<digest><blanks>[*]<name>": the name is the whole rest of the line (sha256sum marks
+            // binary-mode entries with a leading '*'), so that an entry for "<asset> (1)" or
+            // "<asset> old" is not taken for the asset's.
+            const auto blank = [](char c) {
+                return c == ' ' || c == '\t' || c == '\r' || c == '\n' || c == '\v' || c == '\f';
+            };
             while (std::getline(in, line)) {
-                std::istringstream parts(line);
-                std::string hash;
-                std::string name;
-                if (!(parts >> hash >> name))
+                size_t i = 0;
+                while (i < line.size() && blank(line[i])) ++i;
+                const size_t hashStart = i;
+                while (i < line.size() && !blank(line[i])) ++i;
+                const std::string hash = line.substr(hashStart, i - hashStart);
+                if (hash.empty() || i == line.size())
                     continue;
-                // sha256sum marks binary-mode entries with a leading '*'.
-                if (!name.empty() && name.front() == '*')
-                    name.erase(name.begin());
-                if (name == assetName)
+                while (i < line.size() && blank(line[i])) ++i;
+                if (i < line.size() && line[i] == '*')
+                    ++i;
+                size_t end = line.size();
+                while (end > i && blank(line[end - 1])) --end;
+                if (end == i)
+                    continue;
+                if (line.compare(i, end - i, assetName) == 0)
                     return hash;
             }
             return std::nullopt;
